@@ -115,8 +115,16 @@ func c13Program(run *common.Run, prog int, engine string, idx int) {
 		}
 		m.Commit(k, nr)
 	}
+	var nz *noise
+	nzr := run.Rand("C13.noise", prog)
+	if prog%2 == 1 {
+		nz = newNoise(srv) // unrelated requests for a second, wide table between the requests of the program
+	}
 	nreq := r.Range(2, 6)
 	for s := 0; s < nreq; s++ {
+		if nz != nil && nzr.Chance(1, 2) {
+			nz.send(nzr, srv)
+		}
 		switch r.Intn(5) {
 		case 0:
 			clock += int64(r.Intn(5000))
